@@ -556,3 +556,197 @@ func evalPred(g *ssa.Function, x int64) (bool, bool) {
 	}
 	return false, false
 }
+
+// checkCountersAdvance — R05.16: a scan position is not advanced by a length that can be zero.
+// For every loop on a parse or render path whose exit test compares a counter with a length
+// (`for pos < len(s)`), every value the counter takes on the way round that has the form
+// counter + len(y) needs evidence, on the way to the addition, that y is not empty
+// (`len(y) > 0`, `y != ""`, a constant): with an empty search string, separator or key the
+// position stays where it is and the loop — and with it Render — never returns.  Constant steps
+// and steps computed otherwise are not examined.
+func checkCountersAdvance(w *World, r *Report) {
+	reach := w.renderReachable()
+	for f := range w.parseReachable() {
+		reach[f] = true
+	}
+	n := 0
+	for _, fn := range w.pkgFuncs() {
+		if !reach[fn] {
+			continue
+		}
+		for _, b := range fn.Blocks {
+			// loop header: has a predecessor it dominates
+			isHeader := false
+			for _, p := range b.Preds {
+				if b.Dominates(p) {
+					isHeader = true
+				}
+			}
+			if !isHeader {
+				continue
+			}
+			for _, in := range b.Instrs {
+				phi, ok := in.(*ssa.Phi)
+				if !ok {
+					break
+				}
+				if bt, ok := phi.Type().Underlying().(*types.Basic); !ok || bt.Info()&types.IsInteger == 0 {
+					continue
+				}
+				// the counter is compared with a length somewhere in the loop's exit tests
+				cmpLen := false
+				if phi.Referrers() != nil {
+					for _, ref := range *phi.Referrers() {
+						if bo, ok := ref.(*ssa.BinOp); ok {
+							switch bo.Op {
+							case token.LSS, token.LEQ, token.GTR, token.GEQ, token.NEQ:
+								other := bo.Y
+								if other == ssa.Value(phi) {
+									other = bo.X
+								}
+								if _, ok := sizeValue(other, 0); ok {
+									cmpLen = true
+								}
+							}
+						}
+					}
+				}
+				if !cmpLen {
+					continue
+				}
+				// values arriving over back edges
+				seen := map[ssa.Value]bool{}
+				var visit func(v ssa.Value, d int)
+				visit = func(v ssa.Value, d int) {
+					if v == nil || seen[v] || d > 6 {
+						return
+					}
+					seen[v] = true
+					switch x := v.(type) {
+					case *ssa.Phi:
+						if x == phi {
+							return
+						}
+						for _, e := range x.Edges {
+							visit(e, d+1)
+						}
+					case *ssa.BinOp:
+						if x.Op != token.ADD {
+							return
+						}
+						var step ssa.Value
+						if x.X == ssa.Value(phi) {
+							step = x.Y
+						} else if x.Y == ssa.Value(phi) {
+							step = x.X
+						} else {
+							return
+						}
+						c, ok := step.(*ssa.Call)
+						if !ok {
+							return
+						}
+						bi, ok := c.Call.Value.(*ssa.Builtin)
+						if !ok || bi.Name() != "len" || len(c.Call.Args) != 1 {
+							return
+						}
+						y := c.Call.Args[0]
+						if bt, ok := y.Type().Underlying().(*types.Basic); !ok || bt.Info()&types.IsString == 0 {
+							if _, isSl := y.Type().Underlying().(*types.Slice); !isSl {
+								return
+							}
+						}
+						n++
+						construct := "counter advanced by len(" + describe(y) + ")"
+						if cst, ok := y.(*ssa.Const); ok && cst.Value != nil && constant.StringVal(cst.Value) != "" {
+							r.ok("R05.16", ssaName(fn), construct, w.posOf(x.Pos()), "a non-empty constant", false)
+							return
+						}
+						if nonEmptyAt(x, y) {
+							r.ok("R05.16", ssaName(fn), construct, w.posOf(x.Pos()), "the addition is reached only where the value was found non-empty", true)
+						} else {
+							r.bad("R05.16", ssaName(fn), construct, w.posOf(x.Pos()), "nothing on the way to this addition shows that the value is not empty: with an empty one the counter stays where it is and the loop never ends — the render does not return")
+						}
+					}
+				}
+				for i, p := range b.Preds {
+					if b.Dominates(p) && i < len(phi.Edges) {
+						visit(phi.Edges[i], 0)
+					}
+				}
+			}
+		}
+	}
+	r.Counts["loop counters advanced by a length"] = n
+}
+
+// nonEmptyAt: some dominating branch on the way to instruction at establishes len(y) > 0
+// (len(y) > 0, len(y) != 0, len(y) >= 1, y != "", or the false edge of the opposites).
+func nonEmptyAt(at ssa.Instruction, y ssa.Value) bool {
+	isLenY := func(v ssa.Value) bool {
+		c, ok := v.(*ssa.Call)
+		if !ok {
+			return false
+		}
+		bi, ok := c.Call.Value.(*ssa.Builtin)
+		return ok && bi.Name() == "len" && len(c.Call.Args) == 1 && sameValue(unspill(c.Call.Args[0]), unspill(y))
+	}
+	isInt := func(v ssa.Value, k int64) bool {
+		c, ok := v.(*ssa.Const)
+		if !ok || c.Value == nil || c.Value.Kind() != constant.Int {
+			return false
+		}
+		i, _ := constant.Int64Val(c.Value)
+		return i == k
+	}
+	isEmptyStr := func(v ssa.Value) bool {
+		c, ok := v.(*ssa.Const)
+		return ok && c.Value != nil && c.Value.Kind() == constant.String && constant.StringVal(c.Value) == ""
+	}
+	isY := func(v ssa.Value) bool { return sameValue(unspill(v), unspill(y)) }
+	holds := func(v ssa.Value, truth bool) bool {
+		var facts []condFact
+		expandCond(v, truth, &facts, 0)
+		for _, f := range facts {
+			bo, ok := f.v.(*ssa.BinOp)
+			if !ok {
+				continue
+			}
+			switch {
+			case isLenY(bo.X) && isInt(bo.Y, 0):
+				if f.truth && (bo.Op == token.GTR || bo.Op == token.NEQ) || !f.truth && (bo.Op == token.EQL || bo.Op == token.LEQ) {
+					return true
+				}
+			case isLenY(bo.X) && isInt(bo.Y, 1):
+				if f.truth && bo.Op == token.GEQ || !f.truth && bo.Op == token.LSS {
+					return true
+				}
+			case isInt(bo.X, 0) && isLenY(bo.Y):
+				if f.truth && (bo.Op == token.LSS || bo.Op == token.NEQ) || !f.truth && (bo.Op == token.EQL || bo.Op == token.GEQ) {
+					return true
+				}
+			case isY(bo.X) && isEmptyStr(bo.Y), isEmptyStr(bo.X) && isY(bo.Y):
+				if f.truth && bo.Op == token.NEQ || !f.truth && bo.Op == token.EQL {
+					return true
+				}
+			}
+		}
+		return false
+	}
+	b := at.Block()
+	for d := b.Idom(); d != nil; d = d.Idom() {
+		v, trueIdx, ok := ifCond(d)
+		if !ok {
+			continue
+		}
+		// the successor of d that (alone) leads to b
+		for i, s := range d.Succs {
+			if (s == b || s.Dominates(b)) && len(s.Preds) == 1 {
+				if holds(v, i == trueIdx) {
+					return true
+				}
+			}
+		}
+	}
+	return false
+}
